@@ -1229,11 +1229,10 @@ fn check_matching_pattern(
         }
         cx.error_set.report_element_missing_error(*loc, pattern_type.to_description(), index);
         let type_ = Arc::new(Type::Any(Reason::new(*loc, Some(*loc)), false));
-        let (checked, abstract_node) =
-          check_matching_pattern(cx, pattern, wildcard_on_bad_pattern, &type_);
+        // No such element in the type: it takes no part in the exhaustiveness analysis.
+        let (checked, _) = check_matching_pattern(cx, pattern, wildcard_on_bad_pattern, &type_);
         checked_destructured_names
           .push(pattern::TuplePatternElement { pattern: Box::new(checked), type_ });
-        abstract_pattern_nodes.push(abstract_node);
       }
       if fields.len() > checked_destructured_names.len() {
         cx.error_set.report_non_exhaustive_tuple_binding_error(
@@ -1410,11 +1409,11 @@ fn check_matching_pattern(
                 index,
               );
               let type_ = Arc::new(Type::Any(Reason::new(*p.loc(), Some(*p.loc())), false));
-              let (checked, abstract_node) =
-                check_matching_pattern(cx, p, wildcard_on_bad_pattern, &type_);
+              // The variant has no such element: it takes no part in the exhaustiveness analysis,
+              // whose rows must all have the declared number of columns.
+              let (checked, _) = check_matching_pattern(cx, p, wildcard_on_bad_pattern, &type_);
               checked_data_variables
                 .push(pattern::TuplePatternElement { pattern: Box::new(checked), type_ });
-              abstract_pattern_nodes.push(abstract_node);
             }
           }
           (
